@@ -1,3 +1,5 @@
+// C38 native demonstration. Reproduce with a built mfront:  mfront --interface=generic C38_UpperOnly.mfront && g++ -std=c++20 -Iinclude -I<repo>/include -I<repo>/mfront/include src/UpperOnly-generic.cxx C38_demo.cxx -o demo && ./demo
+// Before the fix e9c5074db the call returned with errno = 0 although the caller had set errno = 33 (exit status 1); with the fix errno is 33 (exit 0).
 #include <cerrno>
 #include <cstdio>
 #include "UpperOnly-generic.hxx"
